@@ -427,16 +427,31 @@ def fam_struct(r, idx):
     roles = {}
     # leaf-level structs, then composites
     pool = []
-    style = r.choice(["host", "host", "host", "roles", "roles", "glam10", "glam10", "uniform"])
+    style = r.choice(["host", "host", "friendly", "roles", "roles", "glam10", "glam10", "uniform",
+                      "friendly", "chain", "deepvin"])
     spec.families.append(style)
     stages = []
-    if style in ("host", "uniform", "glam10"):
-        n = r.randint(1, 3)
+    if style in ("host", "uniform", "glam10", "friendly", "chain"):
+        n = r.randint(1, 3) if style != "chain" else r.randint(3, 4)
         for i in range(n):
             if style == "uniform":
                 s = uniform_safe_struct(r, spec, namer)
+            elif style == "friendly":
+                s = friendly_struct(r, spec, namer, pool)
+            elif style == "chain":
+                # every struct contains the previous one (directly, in an array, in an array of
+                # arrays): reachability through >= 3 levels
+                s = friendly_struct(r, spec, namer, [])
+                if pool:
+                    inner = W.ST(pool[-1])
+                    wrap = r.choice([inner, W.A(inner, 2), W.A(W.A(inner, 2), 2), inner])
+                    spec.structs[s].members.insert(
+                        r.randint(0, len(spec.structs[s].members)),
+                        {"name": namer.fresh("inner"), "ty": wrap})
             elif style == "glam10":
                 s = glam_struct(r, spec, namer, pool)
+            elif r.random() < 0.2:
+                s = isolated_struct(r, spec, namer)
             else:
                 s = make_struct(r, spec, namer, list(pool), depth=2, f64=0.08,
                                 atomics=r.random() < 0.15)
@@ -471,6 +486,32 @@ def fam_struct(r, idx):
             spec.globals.append(Global(namer.fresh("g"), "buffer", space="uniform", access="read",
                                        ty=W.ST(u), group=0, binding=1))
         stages = ["compute"]
+    elif style == "deepvin":
+        # a vertex input struct that is host-shareable only through a member of a member
+        b = io_struct(r, spec, namer, "Both", types=[W.V(4, "f32"), W.V(2, "f32"), W.S("f32"),
+                                                      W.V(4, "u32"), W.V(3, "f32")],
+                      flat_ints=False)
+        if r.random() < 0.5:
+            spec.structs[b].members = [
+                {"name": namer.fresh("a"), "ty": W.S("f32"), "location": 0},
+                {"name": namer.fresh("a"), "ty": W.S("f32"), "location": 1, "align": 8},
+                {"name": namer.fresh("a"), "ty": W.V(4, "f32"), "location": 2}]
+        w1 = namer.fresh("Wrap")
+        w1 = w1[0].upper() + w1[1:]
+        spec.structs[w1] = W.StructDef(w1, [{"name": "n", "ty": W.V(4, "u32")},
+                                            {"name": "items", "ty": r.choice(
+                                                [W.A(W.ST(b), 2), W.ST(b)])}])
+        w2 = namer.fresh("Outer")
+        w2 = w2[0].upper() + w2[1:]
+        spec.structs[w2] = W.StructDef(w2, [{"name": "w", "ty": W.ST(w1)}])
+        spec.globals.append(Global(namer.fresh("g"), "buffer", space="storage", access="read",
+                                   ty=W.ST(w2), group=0, binding=0))
+        v = Entry(namer.fresh("vs_"), "vertex")
+        v.params = [{"name": "b", "struct": b}]
+        v.result = {"kind": "position"}
+        spec.entries = [v]
+        spec.funcs = []
+        stages = None
     else:
         role_structs(r, spec, namer)
         stages = None
@@ -479,6 +520,47 @@ def fam_struct(r, idx):
                     accesses_per_global=(1, 2), unreached=0.0)
         finish_entries(r, spec, namer)
     return spec
+
+
+def friendly_struct(r, spec, namer, pool):
+    """members whose Rust layout equals the WGSL layout under every representation (so that the
+    accepted quadrant of C05 is well populated): 16-byte multiples and groups of scalars"""
+    name = namer.fresh("F")
+    name = name[0].upper() + name[1:]
+    ms = []
+    for i in range(r.randint(1, 5)):
+        k = r.random()
+        if k < 0.35:
+            ty = r.choice([W.V(4, "f32"), W.V(4, "u32"), W.V(4, "i32"), W.M(4, 4), W.M(2, 4),
+                           W.M(3, 4)])
+            ms.append({"name": namer.fresh("m"), "ty": ty})
+        elif k < 0.55:
+            ms.append({"name": namer.fresh("m"), "ty": W.A(r.choice([W.V(4, "f32"), W.M(4, 4)]),
+                                                          r.choice([1, 2, 3]))})
+        elif k < 0.7 and pool:
+            ms.append({"name": namer.fresh("m"), "ty": W.ST(r.choice(pool))})
+        else:
+            for j in range(4):
+                ms.append({"name": namer.fresh("m"), "ty": W.S(r.choice(["f32", "u32", "i32"]))})
+    spec.structs[name] = W.StructDef(name, ms)
+    return name
+
+
+def isolated_struct(r, spec, namer):
+    """exactly one member offset differs from the Rust layout under some representation while
+    all later offsets and the size agree (so that every single offset assertion matters)"""
+    name = namer.fresh("Iso")
+    name = name[0].upper() + name[1:]
+    ms = r.choice([
+        [("f32", W.S("f32"), None), ("al8", W.S("f32"), 8), ("v4", W.V(4, "f32"), None)],
+        [("f32", W.S("f32"), None), ("m2", W.M(2, 2), None), ("v4", W.V(4, "f32"), None)],
+        [("u", W.S("u32"), None), ("al8", W.S("u32"), 8), ("m4", W.M(4, 4), None)],
+        [("v4", W.V(4, "f32"), None), ("f", W.S("f32"), None), ("al8", W.S("f32"), 8),
+         ("w", W.V(4, "f32"), None)],
+    ])
+    spec.structs[name] = W.StructDef(name, [
+        dict({"name": namer.fresh(n), "ty": t}, **({"align": a} if a else {})) for n, t, a in ms])
+    return name
 
 
 def glam_struct(r, spec, namer, pool):
@@ -562,7 +644,7 @@ def role_structs(r, spec, namer):
     spec.extra_decls.append("fn use_local() -> f32 { var l: %s; return f32(0); }" % local)
     if r.random() < 0.5:
         pv = make_struct(r, spec, namer, [], depth=0, f64=0, attrs=0)
-        if r.random() < 0.5:
+        if r.random() < 0.15:
             spec.structs[pv].members.append({"name": namer.fresh("flag"), "ty": W.S("bool")})
         spec.globals.append(Global(namer.fresh("pv"), r.choice(["private", "workgroup"]),
                                    ty=W.ST(pv)))
@@ -580,7 +662,15 @@ def role_structs(r, spec, namer):
                      types=[W.V(4, "f32"), W.S("f32"), W.V(4, "u32"), W.V(2, "f32")],
                      builtins=[("frag_depth", W.S("f32"))] if r.random() < 0.4 else ()) \
         if r.random() < 0.7 else None
-    both = r.random() < 0.3  # a struct that is host-shareable AND a vertex input
+    if fout and r.random() < 0.3:
+        # a stage output struct that is also the element type of a storage buffer
+        spec.globals.append(Global(namer.fresh("g"), "buffer", space="storage",
+                                   access="read_write", ty=r.choice(
+                                       [W.A(W.ST(fout), None), W.ST(fout), W.A(W.ST(fout), 3)]),
+                                   group=0, binding=7))
+    elif r.random() < 0.2:
+        spec.structs[host_root].members.append({"name": namer.fresh("vo"), "ty": W.ST(vout)})
+    both = r.random() < 0.55  # a struct that is host-shareable AND a vertex input
     ents = []
     v = Entry(namer.fresh("vs_"), "vertex")
     v.params = [{"name": "vin", "struct": vin}]
@@ -606,8 +696,25 @@ def role_structs(r, spec, namer):
         # storage element and as vertex input
         b = io_struct(r, spec, namer, "Both", types=[W.V(4, "f32"), W.V(2, "f32"), W.S("f32"),
                                                       W.V(4, "u32")], flat_ints=False)
+        if r.random() < 0.6:
+            # exactly one member offset differs under glam while the size agrees
+            spec.structs[b].members = [
+                {"name": namer.fresh("a"), "ty": W.S("f32"), "location": 0},
+                {"name": namer.fresh("a"), "ty": W.S("f32"), "location": 1, "align": 8},
+                {"name": namer.fresh("a"), "ty": W.V(4, "f32"), "location": 2}]
+        bty = W.A(W.ST(b), 4)
+        if r.random() < 0.5:
+            # reachable only through a member of a member
+            w1 = namer.fresh("Wrap")
+            w1 = w1[0].upper() + w1[1:]
+            spec.structs[w1] = W.StructDef(w1, [{"name": "n", "ty": W.V(4, "u32")},
+                                                {"name": "items", "ty": bty}])
+            w2 = namer.fresh("Outer")
+            w2 = w2[0].upper() + w2[1:]
+            spec.structs[w2] = W.StructDef(w2, [{"name": "w", "ty": W.ST(w1)}])
+            bty = W.ST(w2)
         spec.globals.append(Global(namer.fresh("g"), "buffer", space="storage", access="read",
-                                   ty=W.A(W.ST(b), 4), group=0, binding=1))
+                                   ty=bty, group=0, binding=1))
         v2 = Entry(namer.fresh("vs_"), "vertex")
         v2.params = [{"name": "b", "struct": b}]
         v2.result = {"kind": "position"}
